@@ -68,6 +68,41 @@ func c01Observe(c *Ctx, cell *tabular.Cell, item interface{}, want string, spec 
 	return true
 }
 
+// c01Behind: a cell which is behind its item (the item was mutated and the cell not asked to update) used as the
+// item of other cells.  "A nested cell gives the inner cell's text": what the inner cell says now, which is not
+// what its item would say.  By value, by pointer, through NewCell and through AddRowItems, and again after the
+// outer cell is asked to update (its item, the inner cell, has not changed).
+func c01Behind(c *Ctx, inner *tabular.Cell, want string, spec *gen.ItemSpec, when string) bool {
+	c.Rec.Count("cells_behind_their_item_used_as_items", 1)
+	byValue := tabular.NewCell(*inner)
+	byPtr := tabular.NewCell(inner)
+	tt := tabular.New()
+	tt.AddRowItems(*inner, inner)
+	in1, e1 := tt.CellAt(tabular.CellLocation{Row: 1, Column: 1})
+	in2, e2 := tt.CellAt(tabular.CellLocation{Row: 1, Column: 2})
+	if e1 != nil || e2 != nil {
+		c.Rec.Violate("cell-unreachable", fmt.Sprintf("CellAt after AddRowItems(cell, &cell): %v %v", e1, e2), spec)
+		return false
+	}
+	outers := []*tabular.Cell{&byValue, &byPtr, in1, in2}
+	names := []string{"NewCell(inner)", "NewCell(&inner)", "the cell AddRowItems made of inner", "the cell AddRowItems made of &inner"}
+	for pass := 0; pass < 2; pass++ {
+		for k, o := range outers {
+			c.Rec.Count("observations", 1)
+			if got := o.String(); got != want || inner.String() != want {
+				c.Rec.Violate("text-form:nested-cell-behind-its-item", fmt.Sprintf("%s: the inner cell (of %s, not asked to update) reads %q; %s (pass %d: 0 as made, 1 after its own Update) reads %q", when, spec.Describe(), inner.String(), names[k], pass, got), spec)
+				return false
+			}
+			if got := o.Empty(); got != inner.Empty() {
+				c.Rec.Violate("empty-flag:nested-cell-behind-its-item", fmt.Sprintf("%s: inner cell Empty()=%v, %s Empty()=%v", when, inner.Empty(), names[k], got), spec)
+				return false
+			}
+			o.Update()
+		}
+	}
+	return true
+}
+
 func c01Check(c *Ctx, spec *gen.ItemSpec, r *gen.R) {
 	c.Case = spec
 	made := spec.Make()
@@ -133,6 +168,9 @@ func c01Check(c *Ctx, spec *gen.ItemSpec, r *gen.R) {
 				return
 			}
 			if hdr != nil && !c01Observe(c, hdr, made.Item, want, spec, "header cell, after mutating the item, before Update") {
+				return
+			}
+			if !c01Behind(c, &cell, want, spec, "after mutating the item, before Update") || !c01Behind(c, live, want, spec, "inside a table, after mutating the item, before Update") {
 				return
 			}
 			want = spec.TextWith(&nf)
@@ -208,6 +246,9 @@ func c01Check(c *Ctx, spec *gen.ItemSpec, r *gen.R) {
 		}
 		csv.Wrap(t2).Render()
 		if !c01Observe(c, live2, m2.Item, w2, spec, "after a render, item mutated without Update") {
+			return
+		}
+		if !c01Behind(c, live2, w2, spec, "after the journey into a table") {
 			return
 		}
 		nf := r.FieldsAny(c01Fam, 4)
